@@ -559,7 +559,11 @@ ApplyTransformIds(fn, sel, i, clone, next, st) ==
              ELSE LET U == Eval(fn.upd, cur, fn.f, st)
                   IN  IF U.x # "ok" THEN U
                       ELSE IF ~IsUndef(U.r) /\ ~IsObj(U.r) THEN Er("IllegalUpdate", U.st)
-                      ELSE LET o1 == IF IsUndef(U.r) THEN cur ELSE MergeInto(cur, U.r.m, 1)
+                      \* a member value that contains the selected object itself is stored as a snapshot: a value
+                      \* of its own, whose objects are no longer the selected ones (an object never contains itself)
+                      ELSE LET um == IF IsUndef(U.r) THEN <<>>
+                                     ELSE [j \in 1..Len(U.r.m) |-> <<U.r.m[j][1], IF IsUndef(FindId(U.r.m[j][2], sel[i])) THEN U.r.m[j][2] ELSE Strip(U.r.m[j][2])>>]
+                               o1 == IF IsUndef(U.r) THEN cur ELSE MergeInto(cur, um, 1)
                                D  == IF fn.del.k = "None" THEN Ok(Undef, U.st) ELSE Eval(fn.del, o1, fn.f, U.st)
                            IN  IF D.x # "ok" THEN D
                                ELSE LET ks == Arrayify(D.r)
